@@ -51,8 +51,22 @@ func c03Stub(s *Store) {
 	}
 }
 
+// c03IsInt: v is the integer n, whatever integer type carries it.
+func c03IsInt(v interface{}, n int) bool {
+	x, null, ok := argInt(v)
+	if _, isStr := v.(string); isStr || !ok || null {
+		return false
+	}
+	return x == n
+}
+
 func c03Kinds() []c03Kind {
-	ok := func(res *gorm.DB, label string) { verifrt.Assert(res.Error == nil, "C03.error:"+label) }
+	ok := func(res *gorm.DB, label string) {
+		if res.Error != nil {
+			verifrt.Observe("error:"+label, res.Error)
+		}
+		verifrt.Assert(res.Error == nil, "C03.error:"+label)
+	}
 	return []c03Kind{
 		{"bool", func(db *gorm.DB, s *Store) {
 			in := KBool{V: verifrt.Bool("v")}
@@ -394,6 +408,48 @@ func c03Kinds() []c03Kind {
 			var out KInt
 			ok(db.First(&out), "first")
 			verifrt.Assert(out.V == v, "C03.value")
+		}},
+		{"create-from-map-slice", func(db *gorm.DB, s *Store) {
+			// a slice of maps: one row per map, in slice order, columns by name
+			v1, v2 := verifrt.Int("v1"), verifrt.Int("v2")
+			prev := s.OnQuery
+			s.OnQuery = func(text string, args []driver.Value) RowSet {
+				if hasPrefix(text, "INSERT") {
+					return prev(text, args)
+				}
+				for _, e := range s.Log {
+					if e.Kind == "EXEC" && hasPrefix(e.Text, "INSERT") {
+						cols := insertCols(e.Text)
+						rs := RowSet{Cols: append([]string{"id"}, cols...)}
+						per := len(cols)
+						for r := 0; per > 0 && (r+1)*per <= len(e.Args); r++ {
+							rs.Rows = append(rs.Rows, append([]driver.Value{int64(5 + r)}, e.Args[r*per:(r+1)*per]...))
+						}
+						return rs
+					}
+				}
+				return RowSet{}
+			}
+			in := []map[string]interface{}{{"V": v1, "w": 7}, {"w": 8, "V": v2}}
+			if verifrt.Concretize(verifrt.Intn("by_pointer", 0, 1), 0, 1) == 1 {
+				ok(db.Model(&KPair{}).Create(&in), "create")
+			} else {
+				ok(db.Model(&KPair{}).Create(in), "create")
+			}
+			// every in-memory record carries the key of the row that stores it, in slice order
+			verifrt.Observe("maps", len(in))
+			verifrt.Observe("id0", in[0]["id"])
+			verifrt.Observe("id1", in[1]["id"])
+			verifrt.Assert(len(in) == 2, "C03.map-slice-length")
+			verifrt.Assert(c03IsInt(in[0]["id"], 5) && c03IsInt(in[1]["id"], 6), "C03.map-keys")
+			var out []KPair
+			ok(db.Find(&out), "find")
+			verifrt.Observe("n", len(out))
+			verifrt.Assert(len(out) == 2, "C03.rows")
+			verifrt.Assert(out[0].V == v1 && out[0].W == 7 && out[1].V == v2 && out[1].W == 8, "C03.value")
+			var ms []map[string]interface{}
+			ok(db.Model(&KPair{}).Find(&ms), "find-maps")
+			verifrt.Assert(len(ms) == 2 && c03IsInt(ms[0]["v"], v1) && c03IsInt(ms[1]["w"], 8), "C03.map-value")
 		}},
 	}
 }
